@@ -63,8 +63,13 @@ def generate(rng, i):
         fold = rng.choice(["train", "test", "test"])      # 'test' starts mid-data: the window must be warmed up from history
     ny = len(tb["ycols"])
     acts = [[round(rng.uniform(-0.3, 0.5), 4) for _ in range(ny)] for _ in range(7)]
+    late_features = False
+    if kw["latency"] and rng.random() < 0.6:
+        # feature rows are stamped 30 s after the price rows, i.e. inside the latency window of the previous timestep
+        tb["x_offset_s"] = 30
+        late_features = True
     prior = None
-    if rng.random() < (0.5 if kw.get("folds") else 0.15):
+    if rng.random() < (0.5 if (kw.get("folds") or late_features) else 0.15):
         # an earlier episode on the same environment instance (on another fold if there are folds), abandoned after
         # a few steps or played to its end: what the judged episode serves must not depend on it
         prior = {"fold": rng.choice(sorted(kw["folds"])) if kw.get("folds") else None, "max_steps": rng.choice([0, 1, 3, None])}
@@ -88,6 +93,8 @@ def execute(scenario):
             try:
                 xy.run_episode(env, scenario["actions"], fold=prior.get("fold"), np_seed=scenario.get("np_seed", 0) + 1, max_steps=prior.get("max_steps"))
                 probe("earlier_episode_on_same_instance")
+                if tb.get("x_offset_s"):
+                    probe("earlier_episode_with_feature_rows_inside_the_latency_window")
                 if prior.get("fold") != scenario.get("fold"):
                     probe("earlier_episode_on_other_fold")
             except Exception:
